@@ -285,6 +285,7 @@ type jBatch struct {
 	Kind    string
 	Changes []jChange
 	Restart bool `json:",omitempty"` // after this batch the "restart" shard is closed and reopened
+	Fault   bool `json:",omitempty"` // the storage transaction of this batch fails at commit time on the shards behind the proxy; nothing of it is committed
 }
 type jChange struct {
 	Id  string
@@ -355,6 +356,12 @@ func (ac allCase) newSim(dir string) *c04lib.Sim { return c04lib.NewSim(dir, sch
 
 // applyTo: one batch on every shard of the simulation, then the scheduled restart
 func (jb jBatch) applyTo(sim *c04lib.Sim) error {
+	if jb.Fault {
+		if why := sim.ApplyFaulted(jb.toBatch()); why != "" {
+			return errors.New(why)
+		}
+		return nil
+	}
 	_, _, err := sim.Apply(jb.toBatch())
 	if err == nil && jb.Restart {
 		sim.Reopen("restart")
@@ -910,6 +917,20 @@ func (rn *runner) history(dir string, nb, nq int) {
 		if len(jb.Changes) == 0 {
 			continue
 		}
+		if rn.r.Chance(20) {
+			// the same batch first fails at commit time (on the shards behind the storage proxy), is
+			// answered for like any other state, and is then applied for good
+			fb := jb
+			fb.Fault, fb.Restart = true, false
+			rn.ac.Batches = append(rn.ac.Batches, fb)
+			c04lib.Progress("applying a "+jb.Kind+" batch whose commit fails (the last one of this case)", rn.replayOf(nil, "batch"))
+			if err := fb.applyTo(sim); err != nil {
+				o.Fail("faulted-batch:"+jb.Kind, err.Error(), rn.replayOf(nil, "batch"))
+				return
+			}
+			o.Stats["batch-failing-at-commit"]++
+			rn.answerAll(nq / 2)
+		}
 		rn.ac.Batches = append(rn.ac.Batches, jb)
 		rn.curQ = nil
 		c04lib.Progress("applying a "+jb.Kind+" batch (the last one of this case)", rn.replayOf(nil, "batch"))
@@ -924,33 +945,39 @@ func (rn *runner) history(dir string, nb, nq int) {
 		}
 		rn.trainingStats(trained)
 		rn.graphStats(jb.Kind)
-		groups, closeRefs := refsFor(sim)
-		// durability on every shard and on the reopened copies: the point count
+		rn.answerAll(nq)
+	}
+}
+
+// answerAll: the current committed state is answered for by every shard
+func (rn *runner) answerAll(nq int) {
+	o, sim := rn.o, rn.sim
+	groups, closeRefs := refsFor(sim)
+	defer closeRefs()
+	// durability on every shard and on the reopened copies: the point count
+	for _, refs := range groups {
+		for _, ref := range refs {
+			info, err := ref.sh.Info()
+			if err != nil || int(info.PointCount) != len(sim.Order) {
+				o.Fail("durable-count:"+ref.name, fmt.Sprintf("%s shard reports %d points (err %v), %d are live", ref.name, info.PointCount, err, len(sim.Order)), rn.replayOf(nil, ref.name))
+			}
+		}
+	}
+	for _, q := range rn.genQueries(nq) {
+		q := q
+		rn.curQ = &q
+		c04lib.Progress("answering a "+q.Kind+" query on every shard", rn.replayOf(&q, "query"))
+		before := len(o.Oracle)
 		for _, refs := range groups {
-			for _, ref := range refs {
-				info, err := ref.sh.Info()
-				if err != nil || int(info.PointCount) != len(sim.Order) {
-					o.Fail("durable-count:"+ref.name, fmt.Sprintf("%s shard reports %d points (err %v), %d are live", ref.name, info.PointCount, err, len(sim.Order)), rn.replayOf(nil, ref.name))
-				}
-			}
+			rn.compareAll(q, refs)
 		}
-		for _, q := range rn.genQueries(nq) {
-			q := q
-			rn.curQ = &q
-			c04lib.Progress("answering a "+q.Kind+" query on every shard", rn.replayOf(&q, "query"))
-			before := len(o.Oracle)
-			for _, refs := range groups {
-				rn.compareAll(q, refs)
-			}
-			if len(o.Oracle) > before && rn.shrinks < 2 {
-				rn.shrinks++
-				rn.shrink(o.Oracle[before].Signature, q, &o.Oracle[before])
-			}
-			if len(o.Oracle) > before {
-				c04lib.SaveFailures(o.Oracle)
-			}
+		if len(o.Oracle) > before && rn.shrinks < 2 {
+			rn.shrinks++
+			rn.shrink(o.Oracle[before].Signature, q, &o.Oracle[before])
 		}
-		closeRefs()
+		if len(o.Oracle) > before {
+			c04lib.SaveFailures(o.Oracle)
+		}
 	}
 }
 
